@@ -49,7 +49,8 @@ def residues(svg, ndigits=3):
         yield el
         if isinstance(el.tag, str):
             q_ = etree.QName(el.tag)
-            if q_.namespace == SVGNS and q_.localname not in KNOWN:
+            if q_.namespace == SVGNS and (q_.localname not in KNOWN or
+                                          (q_.localname == "symbol" and "id" in el.attrib)):
                 return
         for c in el:
             yield from walk(c)
@@ -63,7 +64,8 @@ def residues(svg, ndigits=3):
         if q.namespace != SVGNS:
             res.add("noise")
             continue
-        if name not in KNOWN:
+        if name not in KNOWN or (name == "symbol" and "id" in el.attrib):
+            # (a symbol with an id is never instantiated by this library: it ends in an error or is dropped)
             res.add("unsupported")
             continue
         if any(etree.QName(a).namespace not in (None, "http://www.w3.org/1999/xlink") for a in el.attrib):
@@ -142,9 +144,26 @@ def residues(svg, ndigits=3):
             res.add("unrounded")
         if paints is False:
             res.add("invisible")
+        elif is_path:
+            try:
+                import copy
+                for sub in sh.subpaths():
+                    probe = copy.copy(sh)
+                    probe.d = sub
+                    if not probe.might_paint():
+                        res.add("emptysubpath")
+                        break
+            except Exception:  # noqa
+                pass
         m = re.match(r"^url\(#([^)]*)\)$", at["fill"] or "")
         if m:
             used.add(m.group(1))
+    # users hidden inside unsupported subtrees count as users (the library counts them too)
+    for el in root.iter():
+        if isinstance(el.tag, str):
+            m = re.match(r"^url\(#([^)]*)\)$", el.attrib.get("fill", ""))
+            if m:
+                used.add(m.group(1))
     for d in defs:
         for g in d:
             if isinstance(g.tag, str) and _local(g) in ("linearGradient", "radialGradient") \
